@@ -5,6 +5,8 @@
 package ast
 
 /*@
+// the import graph is not rewritten while it is walked
+immutable ast.Module.Imports ast.ImportStmt.Modules []*ast.ImportStmt []*ast.Module
 // interface methods that only read the node (trusted: every implementation returns a stored field)
 func (Node).GetRange
   pure
@@ -43,4 +45,29 @@ lemma L_pos_irreflexive [C16]: forall a token.Position :: !posLess(a, a)
 lemma L_pos_asymmetric [C16]: forall a, b token.Position :: !(posLess(a, b) && posLess(b, a))
 lemma L_pos_transitive [C16]: forall a, b, c token.Position :: posLess(a, b) && posLess(b, c) ==> posLess(a, c)
 lemma L_pos_total [C16]: forall a, b token.Position :: a != b ==> posLess(a, b) || posLess(b, a)
+
+// ---- C10 / C16: every transitively imported module is handed to the callback once, dependencies first ----
+// The order does not depend on map iteration: the walk follows the import lists (slices), the map is only the visited set.
+spec importsVisited(visited map[*Module]struct{}, module *Module) bool :=
+  forall i, j int :: 0 <= i && i < len(module.Imports) && 0 <= j && j < len(module.Imports[i].Modules)
+    ==> mapHas(visited, module.Imports[i].Modules[j])
+
+func iterateModuleImportsRec [C10, C16]
+  requires module != nil && visited != nil
+  // the callback runs for a module only after it was entered into the visited set (at most once per module) ...
+  callsite fun requires arg0 == module && mapHas(visited, module)
+  // ... and only after every module it imports has been visited (dependencies first)
+  callsite fun requires importsVisited(visited, module)
+  modifies *
+  ensures mapHas(visited, module)
+  ensures forall m *Module :: old(mapHas(visited, m)) ==> mapHas(visited, m)
+  loop 0 invariant mapHas(visited, module) && (forall m *Module :: old(mapHas(visited, m)) ==> mapHas(visited, m))
+  loop 0 invariant forall i, j int :: 0 <= i && i <= rangeindex && i < len(module.Imports) && 0 <= j && j < len(module.Imports[i].Modules)
+                     ==> mapHas(visited, module.Imports[i].Modules[j])
+  loop 1 invariant mapHas(visited, module) && (forall m *Module :: old(mapHas(visited, m)) ==> mapHas(visited, m))
+  loop 1 invariant forall i, j int :: 0 <= i && i < at(LI, rangeindex) && i < len(module.Imports) && 0 <= j && j < len(module.Imports[i].Modules)
+                     ==> mapHas(visited, module.Imports[i].Modules[j])
+
+func IterateModuleImports [C10, C16]
+  callsite iterateModuleImportsRec requires arg0 == module && arg0 != nil && arg2 != nil
 @*/
